@@ -102,6 +102,17 @@ impl Lab for String {
     fn cast_ref(v: f64) -> Self { format!("{v}") }
     fn to_lab(&self) -> String { self.clone() }
 }
+/// compound element types (heap-backed: a list, a pair holding a string) carrying the label in their first member
+impl Lab for List<i32> {
+    fn from_lab(x: i128) -> Self { List(vec![x as i32, 7]) }
+    fn to_lab(&self) -> String { self.0.first().map_or("empty".to_string(), |v| v.to_string()) }
+    fn cast_ref(v: f64) -> Self { List(vec![v as i32, 7]) }
+}
+impl Lab for Tuple2<i32, String> {
+    fn from_lab(x: i128) -> Self { Tuple2(x as i32, format!("s{x}")) }
+    fn to_lab(&self) -> String { if self.1 == format!("s{}", self.0) { self.0.to_string() } else { format!("torn({},{})", self.0, self.1) } }
+    fn cast_ref(v: f64) -> Self { Tuple2(v as i32, format!("s{}", v as i32)) }
+}
 impl Lab for bool {
     fn from_lab(x: i128) -> Self { x != 0 }
     fn cast_ref(v: f64) -> Self { v != 0.0 }
@@ -193,6 +204,14 @@ macro_rules! with_lab_type {
             "u8" => { type $T = u8; $body }
             "f64" => { type $T = f64; $body }
             "str" => { type $T = String; $body }
+            // further element types for the operations that are generic in the element (labels must fit the type)
+            "f32" => { type $T = f32; $body }
+            "i8" => { type $T = i8; $body }
+            "i16" => { type $T = i16; $body }
+            "u16" => { type $T = u16; $body }
+            "u64" => { type $T = u64; $body }
+            "list" => { type $T = List<i32>; $body }
+            "pair" => { type $T = Tuple2<i32, String>; $body }
             _ => "bad:type".to_string(),
         }
     };
